@@ -116,6 +116,17 @@ CHECKS["C02"] = dict(
          "grammar and its builder are validated at setup. Trusted: z3, CrossHair bytes/int models, vkit/strict.py.",
     design="3 (C02)", technique=CH)
 
+CHECKS["C04"] = dict(
+    text="Bounded symbolic execution of real store->fetch round trips against the memcached model with the value bytes "
+         "symbolic (every content, lengths 0..5, thorough 8), a symbolic reply cut and receive sizes 4096 and 4: the fetched "
+         "value must equal the stored one; the request must be the placeholder request with the value substituted. Key "
+         "remapping (caller's key objects, prefix on the wire only, str/bytes twins, 6 collection kinds incl. one-shot "
+         "iterators) and serializer round trips (pickle protocols 0..5, compressed, no serde) are solver-enumerated over "
+         "representative corpora. All shards exhaust.",
+    note="Pickle/zlib/bz2 are C code (values realized: representatives, not all values). The server model runs untraced on a "
+         "placeholder; symbolic bytes are checked in the request and spliced into the reply. " + NETNOTE,
+    design="3 (C04)", technique=CH)
+
 NOT_YET = {}
 
 NA_REASON_PENDING = "check not built yet in this session (planned; see DESIGN.md section 3)"
